@@ -10,12 +10,14 @@
      outcome [Crashed CUnderflow] (Go would read a local's slot and only panic
      with an index-out-of-range once sp reaches 0).  C17 is exactly the claim
      that this never happens for emitted code.
-   - strings are Go strings: BYTE sequences (indexing, slicing, ranging and
-     comparison are byte-wise in the VM).
+   - strings are Go strings: BYTE sequences; comparison and concatenation are
+     byte-wise, indexing / slicing / ranging go through []rune (code points),
+     as value.go does since 6a7e6f1 (utf8_decode mirrors Go's decoding: an
+     invalid byte is U+FFFD).
    - arrays and maps are immutable values here: the heap effect of OpSetIndex
      (element store through shared backing arrays / the shared Go map) is not
-     modelled — OpSetIndex only performs its pops, type checks and the bounds
-     check.  The known VM divergences that live there are recorded through the
+     modelled — OpSetIndex only performs its pops, type checks and the index
+     check (normalizeIndex since 8c3c11e).  The known VM divergences that live there are recorded through the
      implementation-level oracle of C16, not through this model.
    - every unchecked type assertion of vm.go/value.go is the outcome
      [Crashed CType]; every returned error is [Failed e]. *)
@@ -32,7 +34,7 @@ Inductive value :=
 | VNil.            (* a nil interface: unset global / local slot *)
 
 Inductive perr := EStackOverflow | EDivZero | EBadRepetition | EBounds | EIndexValue | EMapKey | ESlice
-                | ERangeValue.   (* only produced by the _fixed variants (proposed_fixes/C16-zero-step-range.diff) *)
+                | ERangeValue.   (* ErrRangeValue: a step range with step 0 (fc6a6b3) *)
 Inductive crash := CUnderflow | COperand | CDecode | CType.
 Inductive pres := POk (v : value) | PErr (e : perr) | PCrash (c : crash).
 
@@ -73,6 +75,61 @@ Definition float_mod (x y : float) : float :=
       if (r =? 0)%Z then (if sx then (-0)%float else 0%float)
       else SF2Prim (SpecFloat.binary_normalize 53 1024 (if sx then - r else r)%Z e false)
   end.
+
+(* ---------- UTF-8 ([]rune(string(s)) and string(runes)) ---------- *)
+(* encoding of a code point; values >= 0x110000 stand for raw bytes (Base conventions) *)
+Definition utf8_cp (c : N) : list N :=
+  (if c <? 128 then [c]
+   else if c <? 2048 then [192 + c / 64; 128 + c mod 64]
+   else if c <? 65536 then [224 + c / 4096; 128 + (c / 64) mod 64; 128 + c mod 64]
+   else if c <? 1114112 then [240 + c / 262144; 128 + (c / 4096) mod 64; 128 + (c / 64) mod 64; 128 + c mod 64]
+   else [(c - 1114112) mod 256])%N.
+Definition utf8_encode (s : list N) : list N := flat_map utf8_cp s.
+
+Definition is_cont (b : N) : bool := (128 <=? b) && (b <=? 191).
+Definition rune_error : N := 65533.
+
+(* one rune, as utf8.DecodeRune does: (code point, bytes consumed) *)
+Definition decode_rune (l : list N) : N * nat :=
+  match l with
+  | [] => (rune_error, 1%nat)
+  | b0 :: t =>
+      if b0 <? 128 then (b0, 1%nat)
+      else if (194 <=? b0) && (b0 <=? 223) then
+        match t with
+        | b1 :: _ => if is_cont b1 then ((b0 - 192) * 64 + (b1 - 128), 2%nat) else (rune_error, 1%nat)
+        | _ => (rune_error, 1%nat)
+        end
+      else if (224 <=? b0) && (b0 <=? 239) then
+        match t with
+        | b1 :: b2 :: _ =>
+            let lo := if b0 =? 224 then 160 else 128 in
+            let hi := if b0 =? 237 then 159 else 191 in
+            if (lo <=? b1) && (b1 <=? hi) && is_cont b2
+            then ((b0 - 224) * 4096 + (b1 - 128) * 64 + (b2 - 128), 3%nat) else (rune_error, 1%nat)
+        | _ => (rune_error, 1%nat)
+        end
+      else if (240 <=? b0) && (b0 <=? 244) then
+        match t with
+        | b1 :: b2 :: b3 :: _ =>
+            let lo := if b0 =? 240 then 144 else 128 in
+            let hi := if b0 =? 244 then 143 else 191 in
+            if (lo <=? b1) && (b1 <=? hi) && is_cont b2 && is_cont b3
+            then ((b0 - 240) * 262144 + (b1 - 128) * 4096 + (b2 - 128) * 64 + (b3 - 128), 4%nat)
+            else (rune_error, 1%nat)
+        | _ => (rune_error, 1%nat)
+        end
+      else (rune_error, 1%nat)
+  end.
+
+Fixpoint utf8_decode_fuel (fuel : nat) (l : list N) : list N :=
+  match fuel, l with
+  | _, [] => []
+  | O, _ => []
+  | S f, _ => let (c, n) := decode_rune l in c :: utf8_decode_fuel f (skipn n l)
+  end.
+(* []rune(string(s)) *)
+Definition utf8_decode (l : list N) : list N := utf8_decode_fuel (List.length l) l.
 
 (* ---------- value.go ---------- *)
 (* value.Equals; [None] = the "internal error" panic on a type mismatch or a
@@ -140,8 +197,9 @@ Definition index_value (lhs idx : value) : pres :=
   match lhs with
   | VStr s =>
       match idx with
-      | VNum f => match normalize_index f (List.length s) false with
-                  | IOk i => POk (VStr (firstn 1 (skipn i s)))
+      | VNum f => let runes := utf8_decode s in
+                  match normalize_index f (List.length runes) false with
+                  | IOk i => POk (VStr (utf8_encode (firstn 1 (skipn i runes))))
                   | IErr e => PErr e
                   end
       | _ => PCrash CType
@@ -189,7 +247,8 @@ Definition slice_value (lhs start stop : value) : pres :=
     | Some (IOk a, IOk b) => if (b <? a)%nat then PErr ESlice else POk (mk a b)
     end in
   match lhs with
-  | VStr s => go (List.length s) (fun a b => VStr (firstn (b - a) (skipn a s)))
+  | VStr s => let runes := utf8_decode s in
+              go (List.length runes) (fun a b => VStr (utf8_encode (firstn (b - a) (skipn a runes))))
   | VArr l => go (List.length l) (fun a b => VArr (firstn (b - a) (skipn a l)))
   | _ => PCrash CType
   end.
@@ -266,8 +325,24 @@ Definition pure_sem (o : opc) (arg : N) (consts locals globals : list value) (ar
   | _ => PCrash CType
   end.
 
-(* OpSetIndex after its three pops: only the checks (see header) *)
+(* OpSetIndex after its three pops: only the checks (see header).
+   arrayVal.Set goes through normalizeIndex (8c3c11e). *)
 Definition set_index_check (args : list value) : option pres :=
+  match args with
+  | [idx; VMap _; _] => match idx with VStr _ => None | _ => Some (PCrash CType) end
+  | [idx; VArr l; _] =>
+      match idx with
+      | VNum f => match normalize_index f (List.length l) false with
+                  | IErr e => Some (PErr e)
+                  | IOk _ => None
+                  end
+      | _ => Some (PCrash CType)
+      end
+  | _ => None
+  end.
+
+(* arrayVal.Set before 8c3c11e: int(idx) truncation, bounds check only *)
+Definition set_index_check_before_fix (args : list value) : option pres :=
   match args with
   | [idx; VMap _; _] => match idx with VStr _ => None | _ => Some (PCrash CType) end
   | [idx; VArr l; _] =>
@@ -278,6 +353,16 @@ Definition set_index_check (args : list value) : option pres :=
       | _ => Some (PCrash CType)
       end
   | _ => None
+  end.
+
+(* stringVal.Index before 6a7e6f1: byte-wise *)
+Definition index_value_before_fix (lhs idx : value) : pres :=
+  match lhs, idx with
+  | VStr s, VNum f => match normalize_index f (List.length s) false with
+                      | IOk i => POk (VStr (firstn 1 (skipn i s)))
+                      | IErr e => PErr e
+                      end
+  | _, _ => index_value lhs idx
   end.
 
 (* ---------- the machine ---------- *)
@@ -325,6 +410,13 @@ Definition step_range (hv : N) (stk : list value) : option (list value) :=
   | _ => None
   end.
 
+(* the step of the range state on the stack is 0 *)
+Definition zero_step (stk : list value) : bool :=
+  match stk with
+  | VNum _ :: VNum step :: VNum _ :: _ => PrimFloat.eqb step 0
+  | _ => false
+  end.
+
 Definition iter_range (hv : N) (stk : list value) : option (list value) :=
   match stk with
   | VNum index :: iter :: rest =>
@@ -335,7 +427,8 @@ Definition iter_range (hv : N) (stk : list value) : option (list value) :=
           let val := match iter with
                      | VArr l => nth_error l i
                      | VMap m => option_map (fun kv => VStr (fst kv)) (nth_error m i)
-                     | VStr s => if (i <? List.length s)%nat then Some (VStr (firstn 1 (skipn i s))) else None
+                     | VStr s => let runes := utf8_decode s in
+                                 if (i <? List.length runes)%nat then Some (VStr (utf8_encode (firstn 1 (skipn i runes)))) else None
                      | _ => None
                      end in
           let base := VNum (index + 1) :: iter :: rest in
@@ -365,6 +458,7 @@ Definition exec (p : program) (s : vmstate) (o : opc) (arg next : N) : outcome :
       end
   | StepRange =>
       if (List.length (ostack s) <? 3)%nat then Crashed CUnderflow else
+      if zero_step (ostack s) then Failed ERangeValue else   (* fc6a6b3: step == 0 is ErrRangeValue *)
       match step_range arg (ostack s) with
       | Some stk => with_stack s next stk
       | None => Crashed CType
@@ -410,40 +504,6 @@ Definition exec (p : program) (s : vmstate) (o : opc) (arg next : N) : outcome :
           end
       end
   end.
-
-(* ---------- the VM with the proposed repairs (proposed_fixes/C16-*.diff) ---------- *)
-(* arrayVal.Set through normalizeIndex (C16-fractional-index-write.diff) *)
-Definition set_index_check_fixed (args : list value) : option pres :=
-  match args with
-  | [VNum f; VArr l; _] =>
-      match normalize_index f (List.length l) false with
-      | IErr e => Some (PErr e)
-      | IOk _ => None
-      end
-  | _ => set_index_check args
-  end.
-
-(* OpStepRange with a zero step is ErrRangeValue (C16-zero-step-range.diff) *)
-Definition zero_step (stk : list value) : bool :=
-  match stk with
-  | VNum _ :: VNum step :: VNum _ :: _ => PrimFloat.eqb step 0
-  | _ => false
-  end.
-
-Definition exec_fixed (p : program) (s : vmstate) (o : opc) (arg next : N) : outcome :=
-  match o with
-  | StepRange => if zero_step (ostack s) then Failed ERangeValue else exec p s o arg next
-  | SetIndex =>
-      if (List.length (ostack s) <? 3)%nat then exec p s o arg next else
-      match set_index_check_fixed (firstn 3 (ostack s)) with
-      | Some (PErr e) => Failed e
-      | _ => exec p s o arg next
-      end
-  | _ => exec p s o arg next
-  end.
-(* (the other two repairs — repetition deep copy, strings by code point — do
-   not have a _fixed variant here: this model has value semantics for arrays
-   already, and its strings are byte strings by construction) *)
 
 (* one iteration of `for ip := 0; ip < len(vm.instructions); ip++` *)
 Definition vm_step (p : program) (s : vmstate) : outcome :=
